@@ -25,6 +25,7 @@ type HOpts struct {
 	NoJSON    bool
 	Loc       *time.Location
 	Types     []byte // restrict column types (nil = all stream types)
+	BlobLens  []int  // preferred lengths for blob values (sizes around the transport buffer)
 }
 
 // DefaultHOpts gives moderate sizes.
@@ -130,6 +131,10 @@ func (b *Builder) Image(t *hist.Table, id uint64) []hist.Value {
 		}
 		if null {
 			vals[i] = hist.Value{Null: true}
+		} else if len(b.O.BlobLens) > 0 && (c.Type == ev.TBlob || c.Type == ev.TMediumBlob || c.Type == ev.TLongBlob) && c.Meta >= 3 && r.Chance(1, 2) {
+			n := b.O.BlobLens[r.Intn(len(b.O.BlobLens))]
+			data := r.Bytes(n)
+			vals[i] = hist.Value{Enc: append(lenPrefix(n, int(c.Meta)), data...), Text: data}
 		} else {
 			vals[i] = RandValue(r, c, b.O.Loc)
 		}
